@@ -321,6 +321,7 @@ func TestVerif_C02(t *testing.T) {
 		}
 	}
 	c02Bursts(res)
+	c02SeqReuse(res)
 }
 
 // c02Bursts: (i) long runs of Heartbeat Requests, before and after association, on agents with and without the heartbeat
@@ -430,6 +431,102 @@ func c02Bursts(res *vResult) {
 			}
 			res.eval(1)
 			res.distinct(fmt.Sprintf("bursts/hb=%v/up4=%v", o.HB, o.UP4))
+		}()
+	}
+}
+
+// c02SeqReuse: a request that has been answered frees its sequence number; the very next request of the peer (another
+// type, another session) carries the same number - with no other message in between - and must get its own response.
+func c02SeqReuse(res *vResult) {
+	for k := 0; k < vEnv.pick(6, 200); k++ {
+		idx := 8000000 + k
+		if !vEnv.mine(idx) {
+			continue
+		}
+		rng := vEnv.rng("c02seq", idx)
+		up4 := k%3 == 2
+		res.begin(idx, fmt.Sprintf("c02 sequence number reuse %d up4=%v", k, up4), nil)
+		o := vDefaultOpts(up4, vEnv.addr(1))
+		a, err := vStartAgent(o)
+		if err != nil {
+			res.inconclusive("agent start: " + err.Error())
+			return
+		}
+		func() {
+			defer a.stop(vStopWatchdog)
+			p, err := vNewPeer(vEnv.addr(2), o.N4)
+			if err != nil {
+				res.inconclusive("peer: " + err.Error())
+				return
+			}
+			defer p.close()
+			if c01Request(p, p.assocSetup(1), 1) == nil {
+				res.inconclusive("association setup unanswered")
+				return
+			}
+			var live []uint64
+			n := 0
+			for step := 0; step < 24; step++ {
+				seq := uint32(2 + rng.Intn(0x6FFFF0))
+				// two different requests, same sequence number, the second sent when the first has been answered
+				for half := 0; half < 2; half++ {
+					kind := rng.Intn(4)
+					if len(live) == 0 && kind >= 2 {
+						kind = 1
+					}
+					var raw []byte
+					var want uint8
+					what := ""
+					switch kind {
+					case 0:
+						raw, want, what = p.heartbeat(seq), message.MsgTypeHeartbeatResponse, "Heartbeat Request"
+					case 1:
+						n++
+						raw, want, what = p.establish(c10Session(seq, uint64(0xB000+n), 20000+idx%500*40+n)), message.MsgTypeSessionEstablishmentResponse, "Session Establishment Request"
+					case 2:
+						f := vFARSpec{ID: 2, Action: ActionForward, Fwd: true, HasDst: true, DstIf: ie.DstInterfaceAccess, OHC: true, OHCTeid: uint32(0x4000 + step), OHCIP: "198.18.0.10"}
+						raw, want, what = p.modify(vModSpec{Seq: seq, SEID: live[rng.Intn(len(live))], UpFAR: []vFARSpec{f}}), message.MsgTypeSessionModificationResponse, "Session Modification Request"
+					default:
+						i := rng.Intn(len(live))
+						raw, want, what = p.deletion(seq, live[i]), message.MsgTypeSessionDeletionResponse, "Session Deletion Request"
+						live = append(live[:i:i], live[i+1:]...)
+					}
+					m := c01Request(p, raw, seq)
+					res.eval(1)
+					res.event("requests_with_reused_sequence_number", half)
+					res.distinct(fmt.Sprintf("seq-reuse/%d/%s", half, what))
+					w := map[string]interface{}{"sequence": seq, "second_of_pair": half == 1, "request": what}
+					if m == nil {
+						res.violate("C02.R1", "seq-reuse-unanswered "+what, fmt.Sprintf("%s with sequence number %#x (the number of the request answered just before: %v) got no response", what, seq, half == 1), w)
+						return
+					}
+					if m.MessageType() != want {
+						res.violate("C02.R2", fmt.Sprintf("seq-reuse type=%d %s", m.MessageType(), what), fmt.Sprintf("%s with sequence number %#x (the number of the request answered just before: %v) was answered with a %s", what, seq, half == 1, m.MessageTypeName()), w)
+						return
+					}
+					r := vDecodeReply(m)
+					if kind == 1 {
+						if r.Cause != ie.CauseRequestAccepted {
+							res.violate("C02.R4", "seq-reuse est-rejected", fmt.Sprintf("a valid Session Establishment Request with a reused sequence number was rejected (cause %d)", r.Cause), w)
+							return
+						}
+						up := c01UPSEID(m)
+						for _, x := range live {
+							if x == up {
+								res.violate("C02.R6", "seq-reuse est-fseid-of-another-session", fmt.Sprintf("the establishment with the reused sequence number %#x was answered with the UP F-SEID %#x of an earlier session", seq, up), w)
+								return
+							}
+						}
+						live = append(live, up)
+					} else if kind >= 2 && r.Cause != ie.CauseRequestAccepted {
+						res.violate("C02.R4", "seq-reuse "+what+" rejected", fmt.Sprintf("%s for a live session, with a reused sequence number, was rejected (cause %d)", what, r.Cause), w)
+						return
+					}
+				}
+			}
+			if up4 {
+				a.p4.takeC16()
+			}
 		}()
 	}
 }
